@@ -1761,7 +1761,11 @@ func (b *RaftBackend) applyLog(ctx context.Context, command *LogData) error {
 	} else {
 		lowestActiveIndex = b.fsm.fastTxnTracker.lowestActiveIndex()
 	}
-	lowestActiveIndex = min(b.raft.AppliedIndex(), lowestActiveIndex) // we need to cap the lowest active index, otherwise we might miss transaction started concurrently
+	// Cap with the index the state machine has applied, not with the
+	// index raft has handed to it: a transaction takes its start index from
+	// the state machine, which may lag behind raft, and the tracker entries
+	// between that start index and raft's index must survive until it commits.
+	lowestActiveIndex = min(b.fsm.latestIndex.Load(), lowestActiveIndex)
 	command.LowestActiveIndex = new(lowestActiveIndex)
 
 	isTx := len(command.Operations) > 0 && command.Operations[0].OpType == beginTxOp
